@@ -10,6 +10,9 @@ CHECKS = {
  "C11": ("E1-history-bfs", "explicit-state BFS over operation histories on the real stores, differential against a twin store and a reference set",
          "Every reachable state of 9 store types under direct and through-view mutations up to the stated depth is visited; in each state every view is compared with the projection of a reference quad set under all pattern shapes. Exhaustive within the bound, on the real code.",
          "Small-scope hypothesis (4 triples x 4 graph names, depth bound); rustc/std; the reference set model.", "DESIGN.md §4 C11"),
+ "C17": ("E4-word-enumerator", "exhaustive enumeration of all ordered (base, IRI) pairs of a generated IRI set x all parent-step limits, each answer resolved back through the real resolver",
+         "Every ordered pair of a structured IRI universe (authority/no authority, rooted/rootless/empty paths, empty and dot segments, ':' in segments, multi-byte characters, queries and fragments containing '/' and '?') is relativised under 5 parent-step limits; every returned reference is validated, resolved back and its parent steps counted; None is rejected only where the property promises a reference.",
+         "Small-scope hypothesis (<= 2/3 path segments over an 8-segment alphabet); inverse taken w.r.t. the toolkit's resolver.", "DESIGN.md §4 C17"),
 }
 PENDING_REASON = "no check registered yet in this revision (the explorer for this property is still being built; see DESIGN.md §4)"
 
